@@ -36,8 +36,24 @@ def demo_path(name='find_design_rectangle_single_u_tube.json'):
 # -- (1) exit status ---------------------------------------------------------------------------------------------
 def cli_setup():
     import ghedesigner.manager as M
-    shadow(M.GHEManager, 'find_design', lambda self, throw=True: 0)
-    shadow(M.GHEManager, 'prepare_results', lambda self, *a, **k: None)
+
+    def find_design(self, throw=True):
+        # the four ways the real method can end (contract of GHEManager.find_design and of the search it runs)
+        o = CLI.get('design_outcome', 0)
+        if o == 1:
+            raise ValueError('Search failed.')            # no design in the domain, continue_if_design_unmet not set
+        if o == 2:
+            raise RuntimeError('numerical failure')
+        if o == 3:
+            return 1                                       # reports failure, no search result stored
+        self._search = object()
+        return 0
+
+    def prepare_results(self, *a, **k):
+        if getattr(self, '_search', None) is None:         # the real method hands self._search to OutputManager, which dereferences it
+            raise AttributeError("'NoneType' object has no attribute 'ghe'")
+    shadow(M.GHEManager, 'find_design', find_design)
+    shadow(M.GHEManager, 'prepare_results', prepare_results)
 
     def wrote(self, output_directory, output_file_suffix=''):
         CLI['outputs_written'] = True
@@ -67,6 +83,9 @@ def cli_fn(scenario):
         import ghedesigner.manager as M
         n = e.int('n_errors', 0, 9)
         idf_fails = e.boolean('idf_fails')
+        plain_run = scenario.get('outdir') and not scenario.get('validate_only') and not scenario.get('convert')
+        outcome = e.int('design_outcome', 0, 3).__index__() if plain_run else 0      # forks over the four outcomes
+        CLI['design_outcome'] = outcome
         shadow(M, 'validate_input_file', lambda p: n)
 
         def fake_idf(path):
@@ -92,7 +111,7 @@ def cli_fn(scenario):
         elif not scenario.get('outdir'):
             expected_zero = False
         else:
-            expected_zero = (n == 0)
+            expected_zero = (n == 0) if outcome == 0 else False       # no design / failure: non-zero
         cs = [ok_code == expected_zero] if isinstance(expected_zero, SymBool) or isinstance(ok_code, SymBool) else [bool(ok_code) == bool(expected_zero)]
         # exit 0 without --validate-only / --convert only if the outputs were written
         if not scenario.get('validate_only') and not scenario.get('convert'):
@@ -114,15 +133,25 @@ def cli_replay(scenario):
         import subprocess
         import sys
         n = int(model.get('n_errors', 0))
+        outcome = int(model.get('design_outcome', 0))
         inst = json.load(open(demo_path()))
         if n > 0:
             inst['grout']['conductivity'] = -1.0
+        plain_run = scenario.get('outdir') and not scenario.get('validate_only') and not scenario.get('convert')
+        if plain_run and n == 0 and outcome in (2, 3):
+            return None, 'outcome %d of find_design cannot be provoked through a real input file' % outcome
+        if plain_run and n == 0 and outcome == 1:
+            # a valid file whose design problem has no solution: tiny lot, loads far too small for the smallest field
+            inst = json.load(open(demo_path('find_design_near_square_single_u_tube.json')))
+            inst['geometric_constraints']['length'] = 20
+            inst['loads']['ground_loads'] = [x * 1.0e-3 for x in inst['loads']['ground_loads']]
+            inst['simulation'].pop('continue_if_design_unmet', None)
         tmp = tempfile.mkdtemp(prefix='c18_', dir='/dev/shm' if os.path.isdir('/dev/shm') else None)
         try:
             f = Path(tmp) / 'in.json'
             f.write_text(json.dumps(inst))
-            if not scenario.get('validate_only') and not scenario.get('convert') and scenario.get('outdir') and n == 0:
-                return False, 'a full design run is outside this replay (valid input, outputs requested)'
+            if plain_run and n == 0 and outcome == 0:
+                return None, 'a full successful design run is outside this replay (valid input, outputs requested)'
             args = [sys.executable, '-c', 'import sys; from ghedesigner.manager import run_manager_from_cli; sys.exit(run_manager_from_cli())', str(f)]
             if scenario.get('outdir'):
                 args.append(str(Path(tmp) / 'out'))
@@ -139,7 +168,7 @@ def cli_replay(scenario):
             elif scenario.get('convert') or not scenario.get('outdir'):
                 exp_zero = False
             else:
-                exp_zero = n == 0
+                exp_zero = n == 0 and outcome == 0
             return (code == 0) != exp_zero, dict(exit_status=code, expected_zero=exp_zero, stderr=p.stderr[-200:], args=args[3:])
         finally:
             import shutil
